@@ -23,12 +23,12 @@ harness.  Vectors are `DVec α = List α`, matrices `DMat α = List (List α)` (
   `set_refpoint` is modelled statement by statement (five assignments, the first two can raise
   `AttributeError` when no `forward` happened yet, leaving a partial update behind).
 
-  `aliasT = true` is the code before fix D32: `self._ref_t = self.systime` stores **the clock buffer
-  itself**, so the reference time silently follows every later `forward`/`reset`/assignment while
-  `_ref_f/_ref_g` stay frozen.  `aliasT = false` is the documented behaviour (a snapshot).
-  `aliasX = true` is the code as it stands: `_ref_state`, `_ref_input` are the *caller's tensors* (no copy),
-  so an in-place update of those tensors by the caller (`poke`) moves the reference point while `_ref_f/_ref_g`
-  stay frozen; `aliasX = false` is the documented snapshot.
+  `aliasT = false`, `aliasX = false` is the code (and the documentation): `set_refpoint` stores *copies* of the reference
+  time, state and input. The two flags are kept as historical witnesses of two repaired defects:
+  `aliasT = true` — before fix D32 `self._ref_t = self.systime` stored **the clock buffer itself**, so the reference
+  time followed every later `forward`/`reset`/assignment while `_ref_f/_ref_g` stayed frozen;
+  `aliasX = true` — before fix D38 `_ref_state`, `_ref_input` were the *caller's tensors* (no copy), so an in-place
+  update of those tensors by the caller (`poke`) moved the reference point while `_ref_f/_ref_g` stayed frozen.
 -/
 namespace PP.Dyn
 variable {α : Type} [Scalar α]
@@ -418,9 +418,9 @@ def setRefpoint (aliasT : Bool) (fs gs : List Fn) (S : NState α)
 def setSome {β : Type} (o : Option β) (v : β) : Option β := o.map fun _ => v
 
 /-- the caller updates one of its own tensors in place. `self.state` / `self.input` are the caller's tensors, so the
-"most recent state" follows (either semantics). `aliasX = true` is the code as it stands: `_ref_state` / `_ref_input` are
-the caller's tensors as well (no copy), so the reference point follows too while `_ref_f`, `_ref_g` stay frozen;
-`aliasX = false` is the documented snapshot. -/
+"most recent state" follows (either semantics). `aliasX = false` is the code (a snapshot is stored). `aliasX = true` is the code before fix
+D38: `_ref_state` / `_ref_input` were the caller's tensors as well, so the reference point followed too while
+`_ref_f`, `_ref_g` stayed frozen. -/
 def pokeN (aliasX : Bool) (S : NState α) (tgt : PokeTgt) (v : DVec α) : NState α :=
   match tgt with
   | .lastX => { S with last := S.last.map (fun p => (v, p.2)),
